@@ -144,9 +144,10 @@ pub fn exec_child(prop: &str, sc: &serde_json::Value, scratch: &Path) -> ChildOu
     if let Err(e) = std::fs::write(&f, serde_json::to_vec(sc).unwrap()) {
         return ChildOutcome::HarnessError(format!("write {f:?}: {e}"));
     }
-    let out = Command::new(exe()).arg("exec-one").arg(prop).arg(&f).stdin(Stdio::null()).stderr(Stdio::null()).output();
+    let out = run_with_timeout(Command::new(exe()).arg("exec-one").arg(prop).arg(&f).stdin(Stdio::null()).stderr(Stdio::null()).stdout(Stdio::piped()), Duration::from_secs(60));
     let _ = std::fs::remove_file(&f);
     match out {
+        Err(e) if e == "timeout" => ChildOutcome::Died("no-progress(killed by watchdog)".into()),
         Err(e) => ChildOutcome::HarnessError(format!("spawn: {e}")),
         Ok(o) => {
             if o.status.success() {
@@ -163,6 +164,38 @@ pub fn exec_child(prop: &str, sc: &serde_json::Value, scratch: &Path) -> ChildOu
                 ChildOutcome::HarnessError(String::from_utf8_lossy(&o.stdout).to_string())
             } else {
                 ChildOutcome::Died(describe_status(&o.status))
+            }
+        }
+    }
+}
+
+/// Run a command, capture stdout, kill it after `limit`.
+fn run_with_timeout(cmd: &mut Command, limit: Duration) -> Result<std::process::Output, String> {
+    use std::io::Read;
+    let mut ch = cmd.spawn().map_err(|e| e.to_string())?;
+    let mut so = ch.stdout.take();
+    let reader = std::thread::spawn(move || {
+        let mut buf = Vec::new();
+        if let Some(s) = so.as_mut() {
+            let _ = s.read_to_end(&mut buf);
+        }
+        buf
+    });
+    let t0 = Instant::now();
+    loop {
+        match ch.try_wait().map_err(|e| e.to_string())? {
+            Some(status) => {
+                let stdout = reader.join().unwrap_or_default();
+                return Ok(std::process::Output { status, stdout, stderr: vec![] });
+            }
+            None => {
+                if t0.elapsed() > limit {
+                    let _ = ch.kill();
+                    let _ = ch.wait();
+                    let _ = reader.join();
+                    return Err("timeout".into());
+                }
+                std::thread::sleep(Duration::from_millis(5));
             }
         }
     }
@@ -206,20 +239,14 @@ pub fn exec_one_cmd(prop: &str, file: &str) -> i32 {
     }
 }
 
-/// Does the scenario still violate (property, invariant)?
+/// Does the scenario still violate (property, invariant)? Always evaluated in a
+/// child process under a watchdog, so that a candidate that crashes or does not
+/// terminate cannot take the supervisor with it.
 fn still_fails(prop: &str, invariant: &str, sc: &serde_json::Value, scratch: &Path) -> bool {
-    if engines::crash_class(invariant) {
-        match exec_child(prop, sc, scratch) {
-            ChildOutcome::Violations(v, _) => v.iter().any(|x| x.invariant == invariant),
-            ChildOutcome::Died(_) => invariant == "process-death",
-            ChildOutcome::HarnessError(_) => false,
-        }
-    } else {
-        let mut st = Stats::default();
-        match exec_here(prop, sc, &mut st, false) {
-            Ok((v, _, _)) => v.iter().any(|x| x.invariant == invariant),
-            Err(_) => false,
-        }
+    match exec_child(prop, sc, scratch) {
+        ChildOutcome::Violations(v, _) => v.iter().any(|x| x.invariant == invariant),
+        ChildOutcome::Died(how) => (invariant == "process-death" && !how.contains("watchdog")) || (invariant == "run-terminates" && how.contains("watchdog")),
+        ChildOutcome::HarnessError(_) => false,
     }
 }
 
@@ -356,53 +383,78 @@ pub fn run_slices(prop: &str, tier: Tier, seed: u64, total: u64, nw: u64, dir: &
         .collect();
     let mut found = Vec::new();
     let mut deaths = 0;
+    // Backstop against runs that do not terminate: a run normally takes milliseconds;
+    // if a worker's journal shows an open BEGIN and has not moved for this long the
+    // worker is killed and the open run is reported like a process death.
+    let stall = Duration::from_secs(std::env::var("SIM_RUN_TIMEOUT_S").ok().and_then(|s| s.parse().ok()).unwrap_or(if tier == Tier::Quick { 90 } else { 300 }));
+    let mut last_size: Vec<u64> = vec![0; nw as usize];
+    let mut last_move: Vec<Instant> = vec![Instant::now(); nw as usize];
     loop {
         let mut any = false;
         for w in 0..nw as usize {
-            if let Some(ch) = &mut children[w] {
-                any = true;
-                let st = ch.wait().map_err(|e| format!("wait: {e}"))?;
-                children[w] = None;
-                if st.success() {
-                    continue;
+            let Some(ch) = children[w].as_mut() else { continue };
+            any = true;
+            let mut timed_out = false;
+            let st = match ch.try_wait().map_err(|e| format!("wait: {e}"))? {
+                Some(st) => st,
+                None => {
+                    let jp = dir.join(format!("journal-{w}.log"));
+                    let sz = std::fs::metadata(&jp).map(|m| m.len()).unwrap_or(0);
+                    if sz != last_size[w] {
+                        last_size[w] = sz;
+                        last_move[w] = Instant::now();
+                        continue;
+                    }
+                    if last_move[w].elapsed() < stall || last_begin_without_end(&jp).is_none() {
+                        continue;
+                    }
+                    let _ = ch.kill();
+                    timed_out = true;
+                    ch.wait().map_err(|e| format!("wait: {e}"))?
                 }
-                if st.code() == Some(2) {
+            };
+            children[w] = None;
+            last_move[w] = Instant::now();
+            if st.success() {
+                continue;
+            }
+            if st.code() == Some(2) {
+                let err = std::fs::read_to_string(dir.join(format!("stderr-{w}.log"))).unwrap_or_default();
+                return Err(format!("worker {w} reported a harness error: {}", err.lines().last().unwrap_or("")));
+            }
+            // the worker died: identify the run from its journal
+            let how = if timed_out { format!("no-progress-for-{}s(killed by watchdog)", stall.as_secs()) } else { describe_status(&st) };
+            let r = last_begin_without_end(&dir.join(format!("journal-{w}.log")));
+            match r {
+                Some(r) => {
+                    deaths += 1;
+                    if deaths > 40 {
+                        return Err("more than 40 worker deaths; giving up".into());
+                    }
+                    let sc = engines::generate(prop, tier, seed, r);
+                    found.push(FoundViolation {
+                        run: r,
+                        violation: Violation {
+                            property: prop.to_string(),
+                            invariant: if timed_out { "run-terminates".into() } else { "process-death".into() },
+                            key: how.clone(),
+                            detail: format!("worker process ended with {how} while executing run {r}"),
+                        },
+                        scenario: sc,
+                    });
+                    skips[w].insert(r);
+                    children[w] = Some(spawn_worker(prop, tier, seed, w as u64, nw, total, dir, &skips[w]));
+                }
+                None => {
                     let err = std::fs::read_to_string(dir.join(format!("stderr-{w}.log"))).unwrap_or_default();
-                    return Err(format!("worker {w} reported a harness error: {}", err.lines().last().unwrap_or("")));
-                }
-                // the worker died: identify the run from its journal
-                let how = describe_status(&st);
-                let r = last_begin_without_end(&dir.join(format!("journal-{w}.log")));
-                match r {
-                    Some(r) => {
-                        deaths += 1;
-                        if deaths > 40 {
-                            return Err("more than 40 worker deaths; giving up".into());
-                        }
-                        let sc = engines::generate(prop, tier, seed, r);
-                        found.push(FoundViolation {
-                            run: r,
-                            violation: Violation {
-                                property: prop.to_string(),
-                                invariant: "process-death".into(),
-                                key: how.clone(),
-                                detail: format!("worker process died with {how} while executing run {r}"),
-                            },
-                            scenario: sc,
-                        });
-                        skips[w].insert(r);
-                        children[w] = Some(spawn_worker(prop, tier, seed, w as u64, nw, total, dir, &skips[w]));
-                    }
-                    None => {
-                        let err = std::fs::read_to_string(dir.join(format!("stderr-{w}.log"))).unwrap_or_default();
-                        return Err(format!("worker {w} died ({how}) outside any run: {}", err.lines().last().unwrap_or("")));
-                    }
+                    return Err(format!("worker {w} died ({how}) outside any run: {}", err.lines().last().unwrap_or("")));
                 }
             }
         }
         if !any {
             break;
         }
+        std::thread::sleep(Duration::from_millis(20));
     }
     let mut stats = Stats::default();
     let mut hashes = BTreeMap::new();
@@ -462,6 +514,7 @@ pub fn check(prop: &str, tier: Tier) -> i32 {
     let mut reported_invariants: BTreeMap<String, usize> = BTreeMap::new();
     let replay_dir = PathBuf::from(format!("{}/replays", verif_root()));
     let ngroups = groups.len().max(1) as u64;
+    let t_min = Instant::now();
     for ((inv, _key), f) in groups {
         // known finding?
         if let Some(text) = known.matches(&f.violation) {
@@ -484,7 +537,12 @@ pub fn check(prop: &str, tier: Tier) -> i32 {
             let _ = std::fs::remove_dir_all(&dir);
             return 2;
         }
-        let (min_sc, complete) = minimise(prop, &inv, f.scenario.clone(), Duration::from_secs((budget_total / ngroups.min(5)).max(5)), &dir);
+        let spent = t_min.elapsed().as_secs();
+        let (min_sc, complete) = if spent >= budget_total {
+            (f.scenario.clone(), false)
+        } else {
+            minimise(prop, &inv, f.scenario.clone(), Duration::from_secs(((budget_total - spent) / 2).clamp(3, (budget_total / ngroups.min(4)).max(5))), &dir)
+        };
         // determine the violation text of the minimised scenario
         let mut v = f.violation.clone();
         if !engines::crash_class(&inv) {
@@ -553,7 +611,7 @@ pub fn check(prop: &str, tier: Tier) -> i32 {
 fn still_fails_fresh(prop: &str, inv: &str, sc: &serde_json::Value, scratch: &Path) -> bool {
     match exec_child(prop, sc, scratch) {
         ChildOutcome::Violations(v, _) => v.iter().any(|x| x.invariant == inv),
-        ChildOutcome::Died(_) => inv == "process-death",
+        ChildOutcome::Died(how) => (inv == "process-death" && !how.contains("watchdog")) || (inv == "run-terminates" && how.contains("watchdog")),
         ChildOutcome::HarnessError(_) => false,
     }
 }
